@@ -5,6 +5,7 @@
 # removed afterwards.
 set -e
 MUT="$1"; shift; [ "$1" = "--" ] && shift
+case "$MUT" in sed:*) ;; /*) ;; *) MUT="$(pwd)/$MUT" ;; esac
 S="${VERIF_SCRATCH:-/var/tmp}/pyvc-mut-$$"
 mkdir -p "$S"; trap 'rm -rf "$S"' EXIT
 rsync -a --exclude .git --exclude '__pycache__' /repo/ "$S/repo/"
